@@ -2,6 +2,7 @@ package main
 
 import (
 	"fmt"
+	"strings"
 
 	simdjson "github.com/minio/simdjson-go"
 
@@ -175,6 +176,53 @@ func forEachStdDoc(w *W, fn func(name string, text []byte)) {
 			w.res.Transitions++
 			fn("string-tail-escape", text)
 		}
+	}
+	// string buffer growth: the buffer starts at max(128, len/10) bytes and grows by doubling or,
+	// when one string needs more than that, to fit; what it held before has to survive either way
+	w.Note("string buffer growth: 1, 3 or 24 short strings followed by a string of every length 0..60 and every 7th length up to 1500 (plain, and with an escape so that it is copied in both string modes), as last value, as last key, and followed by more short strings; plus 2..400 twelve-byte strings (doubling only)")
+	long := strings.Repeat("Lorem ipsum dolor sit amet, consectetur adipiscing elit. ", 30)
+	for L := 0; L <= 1500; L++ {
+		if L > 60 && L%7 != 0 {
+			continue
+		}
+		w.res.States++
+		if !w.Mine() || w.Expired() || w.TooManyViolations() {
+			continue
+		}
+		for _, nshort := range []int{1, 3, 24} {
+			for _, esc := range []string{"", `\n`, `\u00e9`} {
+				var sb strings.Builder
+				sb.WriteString("{")
+				for i := 0; i < nshort; i++ {
+					fmt.Fprintf(&sb, `"k%d":"v%d",`, i, i*i)
+				}
+				body := esc + long[:L]
+				switch (L + nshort) % 3 {
+				case 0:
+					fmt.Fprintf(&sb, `"body":"%s"}`, body)
+				case 1:
+					fmt.Fprintf(&sb, `"%s":"tail"}`, body)
+				default:
+					fmt.Fprintf(&sb, `"body":"%s","after":"x\ty","z":["%s"]}`, body, esc)
+				}
+				w.res.Transitions++
+				fn("string-buffer-growth", []byte(sb.String()))
+			}
+		}
+	}
+	for n := 2; n <= 400; n += 1 + n/16 {
+		w.res.States++
+		if !w.Mine() || w.Expired() || w.TooManyViolations() {
+			continue
+		}
+		var sb strings.Builder
+		sb.WriteString("[")
+		for i := 0; i < n; i++ {
+			fmt.Fprintf(&sb, `"s\t%08d",`, i)
+		}
+		sb.WriteString(`"end"]`)
+		w.res.Transitions++
+		fn("string-buffer-growth", []byte(sb.String()))
 	}
 	var depths []int
 	for d := 1; d <= 600; d++ {
